@@ -322,6 +322,8 @@ def exec_roundtrip(job):
     lost = 0
 
     def cmp(a, b):
+        if isinstance(a, np.ndarray) and isinstance(b, np.ndarray) and a.shape != b.shape:
+            return 10 ** 6              # the same data has the same shape ((1,) is not ())
         a, b = np.asarray(a, dtype=float).ravel(), np.asarray(b, dtype=float).ravel()
         if a.shape != b.shape:
             return 10 ** 6
@@ -368,8 +370,9 @@ def exec_roundtrip(job):
                     first = r(path)
                     if first.num_poses != K:
                         lost += 1
-                    w(path, traj)
-                    back = r(path)
+                    dest = __import__("pathlib").Path(path) if n % 2 else path         # str and pathlib.Path destinations
+                    w(dest, traj)
+                    back = r(dest)
                 if fmt == "tum":
                     lost += cmp(back.timestamps, traj.timestamps) + cmp(back.positions_xyz, traj.positions_xyz) + \
                         cmp(back.orientations_quat_wxyz, traj.orientations_quat_wxyz)
